@@ -214,6 +214,16 @@ class TrStepA(IntegratorStep):
         d_tr[d_idx] = d_tr[d_idx]*11.0 + t*1000.0 + dt*100000.0 + 5.0
 
 
+class TrStepC(TrStepA):
+    """python level hook that changes the number of real particles: the
+    stage that follows must step the particles present after the hook"""
+    def py_stage1(self, dst, t, dt):
+        n = dst.get_number_of_particles(True)
+        if n < 9:
+            dst.add_particles(x=[0.03 + 0.017*n], y=[0.05], h=[0.13],
+                              tr=[100.0 + n], sv=[3.0], x0=[0.5])
+
+
 class TrStepB(IntegratorStep):
     """no initialize; python level hooks on two stages"""
     def py_stage1(self, dst, t, dt):
@@ -339,6 +349,8 @@ def gen_case(idx, thorough, wiring):
         elif wiring == 1:
             steppers = dict(a=mod.TrStepB(), b=mod.TrStepA(k=4.0),
                             c=mod.TrStepA(k=6.0))
+        elif wiring == 3:
+            steppers = dict(a=mod.TrStepC(k=2.0), b=mod.TrStepA(k=5.0))
         else:
             steppers = dict(c=mod.TrStepA(k=3.0))
         integ = cls(**steppers)
@@ -412,8 +424,13 @@ def run(ctx):
     mod_, ngen = gen_module(ctx.thorough)
     gsrc, _ = gen_integrators(ctx.thorough)
     gjobs = []
-    for w in (0, 1, 2):
+    bodies = gsrc.split('class GenInt')[1:]
+    for w in (0, 1, 2, 3):
         idxs = list(range(ngen))
+        if w == 3:
+            # the hook adds a particle: only integrators that refresh the
+            # neighbour search before they use it again
+            idxs = [i for i in idxs if 'update_nnps=False' not in bodies[i]]
         if not ctx.thorough and w > 0:
             idxs = idxs[(ctx.seed + w) % 3::3]
         for i in range(0, len(idxs), 6):
@@ -468,9 +485,9 @@ def run(ctx):
                     '3/5 stages x with/without initialize x 4 acceleration '
                     'placements (default, once, index 0/1 with update_nnps='
                     'False, evaluator 1) x update_domain after each stage or '
-                    'not x stage-time fractions, with three stepper wirings '
+                    'not x stage-time fractions, with four stepper wirings '
                     '(one array without stepper, py_stage hooks on a subset '
-                    'of stages) on three arrays in a periodic domain, 3 '
+                    'of stages, a hook that adds particles) on three arrays in a periodic domain, 3 '
                     'steps of varying dt; compiled Integrator.step vs the '
                     'mirror; all properties and the post-stage log')
     assumptions = ['the mirror (vlib/ref/integrator_mirror.py) and the '
